@@ -218,6 +218,10 @@ func randDate(rng *rand.Rand, year int) string {
 	case 2:
 		return fmt.Sprintf("Abt. %d", y)
 	case 3:
+		if rng.Intn(3) == 0 { // wide ranges: nested ranges with close midpoints, overlapping ranges
+			w := 2 * (1 + rng.Intn(40))
+			return fmt.Sprintf("Bet. %d and %d", y-w/2, y+w/2)
+		}
 		return fmt.Sprintf("Bet. %d and %d", y, y+rng.Intn(3))
 	}
 	return fmt.Sprintf("%d %s %d", 1+rng.Intn(28), monthNames[1+rng.Intn(12)], y)
